@@ -856,11 +856,12 @@ def _crash():
                                                          callbacks="predicate (tables only: the map is mid-retain), Ord"),
                          covers_required=False, cost=(n + 1) * (40 if dq else 8))
         # append
-        for n, m, keys, t in ((2, 2, [0, 2], QUICK), (1, 2, [0, 1], QUICK), (2, 1, [5], THOROUGH), (3, 2, [1, 3], THOROUGH),
-                              (0, 2, [0, 1], THOROUGH)):
-            if dq and n + m > 3 and t == QUICK:
+        # (two NEW items must be moved for a callback to run between the first and the second move)
+        for n, m, keys, t in ((2, 2, [0, 2], QUICK), (2, 2, [2, 3], QUICK), (1, 2, [0, 1], QUICK), (2, 1, [5], THOROUGH),
+                              (3, 2, [1, 3], THOROUGH), (0, 2, [0, 1], THOROUGH), (3, 3, [3, 4, 5], THOROUGH)):
+            if dq and n + m > 3 and t == QUICK and keys != [2, 3]:
                 t = THOROUGH
-            inst(f"crash_{kind}_append_n{n}_m{m}",
+            inst(f"crash_{kind}_append_n{n}_m{m}" + ("" if keys[0] < n or n == 0 else "_new"),
                  f"crash::crash_append::<{ty}, {n}, {m}, {seq_of(keys)}>(Tables::Any)", kind, n + m,
                  {"C10": t}, "CRASH", meta=dict(op="append", kind=kind, n=n, m=m, other_keys=keys, pre="cs",
                                                  callbacks="Eq, Hash, Ord; both queues probed"),
